@@ -151,19 +151,8 @@ class C07(Prop):
         specs = pc.ctx_specs(case["sigs"])
         init_spec = pc.initial_spec(case["initial"])
         body0 = pc.body_of(case["argv"])
-        if obs.get("err") == "ValueError":
-            # mechanism: int() applied to a non-integer text.  Needs an int-kind value argument
-            # and some text derived from a token (whole token, part after '=', glued rest)
-            # that is not [+-]?[0-9]+
-            import re
-            has_int = any(a["kind"] == "KInt" and not a["incrementable"]
-                          for c in specs + ([init_spec] if init_spec else []) for a in c["args"])
-            cands = []
-            for t in body0:
-                cands += [t, t.partition("=")[2] if "=" in t else t, t[2:] if t.startswith("-") else t]
-            if has_int and any(not re.fullmatch(r"[+-]?[0-9]+", x) for x in cands):
-                return "F-C07a"
-            return None
+        # (F-C07a, ValueError from int(), was repaired in /repo by 401bc73: a ValueError
+        #  escaping parse_argv is no longer attributable to anything -> VIOLATION)
         if obs.get("err") == "AttributeError" and case["initial"] == "none":
             # mechanism: a short-flag cluster is split while machine.context is None
             def cluster_like(t):
